@@ -374,6 +374,10 @@ static void skip_fixed(thrift_decoder_t* dec, size_t n) {
     }
 }
 
+static inline bool is_bool_type(thrift_type_t t) {
+    return t == THRIFT_TYPE_TRUE || t == THRIFT_TYPE_FALSE;
+}
+
 void thrift_skip(thrift_decoder_t* dec, thrift_type_t type) {
     if (dec->status != CARQUET_OK) {
         return;
@@ -419,6 +423,10 @@ void thrift_skip(thrift_decoder_t* dec, thrift_type_t type) {
             int32_t count;
             thrift_read_list_begin(dec, &elem_type, &count);
             for (int32_t i = 0; i < count && dec->status == CARQUET_OK; i++) {
+                if (is_bool_type(elem_type)) {
+                    skip_fixed(dec, 1);  /* bool elements are one byte each */
+                    continue;
+                }
                 thrift_skip(dec, elem_type);
             }
             break;
@@ -429,7 +437,15 @@ void thrift_skip(thrift_decoder_t* dec, thrift_type_t type) {
             int32_t count;
             thrift_read_map_begin(dec, &key_type, &value_type, &count);
             for (int32_t i = 0; i < count && dec->status == CARQUET_OK; i++) {
-                thrift_skip(dec, key_type);
+                if (is_bool_type(key_type)) {
+                    skip_fixed(dec, 1);
+                } else {
+                    thrift_skip(dec, key_type);
+                }
+                if (is_bool_type(value_type)) {
+                    skip_fixed(dec, 1);
+                    continue;
+                }
                 thrift_skip(dec, value_type);
             }
             break;
